@@ -40,7 +40,7 @@ def run_case(case, sched_seed=None, choose=None, simultaneous=0.2):
         finally:
             tz.tawazi.cfg.TAWAZI_PROFILE_ALL_NODES = False
         trace = list(ctl.trace)
-        run = dict(status=st[0], value=jsonable(st[1]), choices=ctl.choices, broken=ctl.broken, segs=[])
+        run = dict(status=st[0], value=jsonable(st[1]), choices=ctl.choices, broken=ctl.broken, segs=[], first_choices=ctl.first_choices, first_options=ctl.first_options)
         # split the full trace (with worker events) per execution for the monitors
         full = []
         curfull = None
@@ -140,3 +140,34 @@ def evaluate(records, prefix="ksched"):
 
 def case_hash(case):
     return hashlib.sha1(json.dumps(case, sort_keys=True).encode()).hexdigest()[:12]
+
+
+def alternatives(ids):
+    """the completions a FIRST_COMPLETED wait can report: any non-empty subset (all subsets up to 3 in flight)"""
+    import itertools
+    ids = sorted(ids)
+    if len(ids) <= 3:
+        return [list(c) for r_ in range(1, len(ids) + 1) for c in itertools.combinations(ids, r_)]
+    return [[i] for i in ids] + [ids]
+
+
+def explore_all_schedules(case, max_runs=200):
+    """DFS over every choice the controller can make for this case (single-operation cases).
+    -> (records, complete: bool)"""
+    records = []
+    stack = [[]]
+    runs = 0
+    while stack and runs < max_runs:
+        prefix = stack.pop()
+        rec = run_case(case, sched_seed=None, choose=[prefix])
+        runs += 1
+        records.append(rec)
+        if not rec["runs"]:
+            break
+        run = rec["runs"][0]
+        fc, fo = run.get("first_choices", []), run.get("first_options", [])
+        for i in range(len(prefix), len(fc)):
+            for alt in alternatives(fo[i]):
+                if alt != fc[i]:
+                    stack.append([list(x) for x in fc[:i]] + [alt])
+    return records, not stack
